@@ -230,8 +230,8 @@ Lemma iter_documents_no_ttl c f r :
 Proof.
   intros H. unfold iter_documents. rewrite (expire_no_ttl c H). simpl.
   destruct (match docs c with [] => filter_applies f (VDoc []) | _ => Ok true end); simpl;
-    [|discriminate].
-  destruct (scan f (docs c)); simpl; [|discriminate].
+    [|rewrite Nat.eqb_refl; discriminate].
+  destruct (scan f (docs c)); simpl; [|rewrite Nat.eqb_refl; discriminate].
   intro E. injection E as <-. split; reflexivity.
 Qed.
 
